@@ -86,6 +86,22 @@ def alphabet(item, rng, run=None):
     return item
 
 
+def gated_histories(it, cap=6):
+    """Depth 4 where it matters most: [switch a gate off, change, read everything, change] for every gate-off action
+    and every pair of changes (member picks and member n first, then the other sets / unsets / resets; capped): a
+    change aimed at something that is currently hidden or ineffective must still be seen by the next read."""
+    acts = it["acts"]
+    info = ktree.sym_info(it["prog"])
+    gates = [k + 1 for k, a in enumerate(acts) if a["a"] == "set" and a.get("v") == "n" and not info.get(a["n"], {}).get("choice")]
+    member = [k + 1 for k, a in enumerate(acts) if a["a"] == "set" and info.get(a.get("n"), {}).get("choice")]
+    other = [k + 1 for k, a in enumerate(acts) if a["a"] in ("set", "unset", "reset", "resetch") and k + 1 not in member and k + 1 not in gates]
+    changes = (member + other)[:cap]
+    ra = [k + 1 for k, a in enumerate(acts) if a["a"] == "readall"]
+    if not gates or not ra:
+        return []
+    return [[g, x, ra[0], y] for g in gates[:3] for x in changes for y in changes]
+
+
 def main(run):
     tier = run.tier
     rng = random.Random(run.seed)
@@ -126,6 +142,7 @@ def main(run):
                 hs = prio + rest
             # deeper than the exhaustive bound: seeded walks of 4..8 actions over the same alphabet (every
             # index sequence is a behaviour of MC_Hist); validated by MC_HistCheck like the others
+            hs = hs + gated_histories(it)
             wr = random.Random("%d/walk/%d" % (run.seed, b + pi))
             walks = [[wr.randrange(len(it["acts"])) + 1 for _ in range(wr.randint(4, 8))] for _ in range(nwalk)]
             hs = hs + walks
